@@ -312,6 +312,11 @@ func (e *Enc) unflatten(t types.Type, ts []T) (Val, []T) {
 	case *types.Interface:
 		return &IfaceV{Tag: ts[0], Data: ts[1]}, ts[2:]
 	case *types.Slice:
+		// Go invariant of every slice value: len <= cap
+		if key := ts[2].S + "<=" + ts[3].S; !e.rangeSeen[key] && !strings.Contains(key, "bv!") {
+			e.rangeSeen[key] = true
+			e.s.Assume(Le(ts[2], ts[3]))
+		}
 		return &SliceV{Base: ts[0], Off: ts[1], Len: ts[2], Cap: ts[3], Elem: u.Elem()}, ts[4:]
 	case *types.Array:
 		return ts[0], ts[1:]
